@@ -131,7 +131,21 @@ pub fn build(draws: &[u16], tier: Tier) -> Case {
     if dw {
         all_sc(&mut prog);
     }
-    let mut c = Case::new("C18", if never { "never-true" } else if dw { "do-while-sc" } else { "await" }, prog);
+    let wt = prog.threads.iter().position(|t| t.iter().any(|o| matches!(o, Op::Await { .. }))).unwrap_or(0);
+    if s.chance(1, 5) {
+        // the loops of the waiter also count their polls (a successful RMW in every iteration)
+        let at = prog.threads[wt].iter().position(|o| matches!(o, Op::Await { .. })).unwrap_or(0);
+        prog.threads[wt].insert(at, Op::LoopCounter);
+    }
+    let mut controls = false;
+    if !never && !dw && s.chance(1, 8) {
+        // the loop runs with exploration switched off (a set-up phase): it must still terminate
+        let at = prog.threads[wt].iter().position(|o| matches!(o, Op::Await { .. })).unwrap_or(0);
+        prog.threads[wt].insert(at + 1, Op::Explore);
+        prog.threads[wt].insert(at, Op::StopExploring);
+        controls = true;
+    }
+    let mut c = Case::new("C18", if never { "never-true" } else if dw { "do-while-sc" } else if controls { "await-unexplored" } else { "await" }, prog);
     c.cfg.max_permutations = Some(tier.iter_cap());
     c.cfg.max_branches = if never { 300 } else { 4000 };
     c
@@ -199,8 +213,16 @@ pub fn eval(case: &Case) -> Verdict {
     if a_op.len() != br.a.outcomes.len() {
         v.label("class:operational_order");
     }
+    if p.has(|o| matches!(o, Op::LoopCounter)) {
+        v.label("loop_counts_polls");
+    }
     if let Some(x) = l.iter().find(|x| !br.u.outcomes.contains(*x)) {
         return v.fail("forbidden_outcome", format!("values read around the loop that C11/RC11 forbids: {}", fmt_outcome(x)));
+    }
+    if p.has(|o| matches!(o, Op::StopExploring)) {
+        // exploration is restricted on purpose: completion and validity only
+        v.label("loop_in_unexplored_region");
+        return v;
     }
     let missing: Vec<&Outcome> = a_op.iter().filter(|x| !l.contains(*x)).collect();
     if missing.is_empty() {
